@@ -90,7 +90,27 @@ func (e *nilEngine) derefsParam(fn *ssa.Function, pi int, depth int) (bool, stri
 	}
 	e.summ[key] = 1 // optimistic for recursion
 	p := fn.Params[pi]
-	reach := e.r.D.Walk(fn, Sigma{"nil?" + e.r.D.D(p): "nil"}, nil, nil)
+	sigma := Sigma{"nil?" + e.r.D.D(p): "nil"}
+	// callees that answer a nil argument with an error: their error is non-nil on this path
+	for _, ref := range *p.Referrers() {
+		call, ok := ref.(*ssa.Call)
+		if !ok {
+			continue
+		}
+		g := call.Call.StaticCallee()
+		tup, isTup := call.Type().(*types.Tuple)
+		if g == nil || !isTup || tup.Len() == 0 {
+			continue
+		}
+		for j, a := range call.Call.Args {
+			if a == ssa.Value(p) && e.rejectsNil(g, j, depth+1) {
+				if ev := CallResult(call, tup.Len()-1); ev != nil {
+					sigma["nil?"+e.r.D.D(ev)] = "non"
+				}
+			}
+		}
+	}
+	reach := e.r.D.Walk(fn, sigma, nil, nil)
 	e.r.Valuations++
 	bad, why := false, ""
 	for _, ref := range *p.Referrers() {
@@ -118,6 +138,29 @@ func (e *nilEngine) derefsParam(fn *ssa.Function, pi int, depth int) (bool, stri
 		e.why[key] = why
 	}
 	return bad, why
+}
+
+// rejectsNil: with parameter pi nil, every return of fn carries a non-nil error.
+func (e *nilEngine) rejectsNil(fn *ssa.Function, pi int, depth int) bool {
+	if depth > 3 || len(fn.Blocks) == 0 || pi >= len(fn.Params) {
+		return false
+	}
+	res := fn.Signature.Results()
+	if res.Len() == 0 || !types.Identical(res.At(res.Len()-1).Type(), types.Universe.Lookup("error").Type()) {
+		return false
+	}
+	reach := e.r.D.Walk(fn, Sigma{"nil?" + e.r.D.D(fn.Params[pi]): "nil"}, nil, nil)
+	e.r.Valuations++
+	rets := reachableReturns(fn, reach)
+	if len(rets) == 0 {
+		return false
+	}
+	for _, ret := range rets {
+		if errKind(ret.Results[len(ret.Results)-1]) != "non" {
+			return false
+		}
+	}
+	return true
 }
 
 // passesNilTo: call passes value v to a parameter that the callee dereferences unguarded.
@@ -307,6 +350,61 @@ func (r *Run) ConstIndexGuarded(scope func(fn *ssa.Function) bool) int {
 			}
 			r.Funcs[FuncName(fn)] = true
 			r.Check(key, ok2, r.Where(in), fmt.Sprintf("%s[%d] unreachable for every len ≤ %d: %v", xd, idx, idx, ok2))
+		})
+	}
+	return n
+}
+
+// NilArgs: a nil pointer constant passed to a module function (or to any
+// module implementation of an interface method) whose corresponding parameter
+// is dereferenced on some path where it is nil.  One obligation per call site
+// that passes a nil pointer constant.
+func (r *Run) NilArgs(scope func(fn *ssa.Function) bool) int {
+	e := newNilEngine(r)
+	n := 0
+	for _, fn := range r.P.ModFuncs {
+		if !scope(fn) || len(fn.Blocks) == 0 {
+			continue
+		}
+		eachInstr(fn, func(in ssa.Instruction) {
+			ci, ok := in.(ssa.CallInstruction)
+			if !ok {
+				return
+			}
+			c := ci.Common()
+			for i, a := range c.Args {
+				k, isConst := a.(*ssa.Const)
+				if !isConst || k.Value != nil {
+					continue
+				}
+				if _, isPtr := k.Type().Underlying().(*types.Pointer); !isPtr {
+					continue
+				}
+				var callees []*ssa.Function
+				off := 0
+				if c.IsInvoke() {
+					callees = e.impls(c)
+					off = 1
+				} else if f := c.StaticCallee(); f != nil {
+					callees = []*ssa.Function{f}
+				}
+				if len(callees) == 0 {
+					continue
+				}
+				n++
+				bad, why := false, ""
+				for _, f := range callees {
+					if pk := fnPkg(f); pk == nil || !strings.HasPrefix(pk.Path(), ModPath) {
+						continue
+					}
+					if b, w := e.derefsParam(f, i+off, 0); b {
+						bad, why = true, w
+					}
+				}
+				r.Funcs[FuncName(fn)] = true
+				r.Check(fmt.Sprintf("nil-arg:%s→%s#%d", short(FuncName(fn)), CalleeOf(ci), i), !bad, r.Where(in),
+					fmt.Sprintf("nil passed as argument %d of %s: %s", i, CalleeOf(ci), map[bool]string{true: "the callee dereferences it on a path where it is nil — " + why, false: "every dereference in the callee is behind a nil test"}[bad]))
+			}
 		})
 	}
 	return n
